@@ -104,7 +104,7 @@ func buildCombIn(in *combIn) error {
 			one.trunLens = [][]int{regroup(in.fs.trunLens, n)}
 		}
 	}
-	if in.lift {
+	if in.lift || one.defaults == 3 {
 		one.defaults = 2
 	}
 	init, err := buildInit(one)
